@@ -333,11 +333,20 @@ theorem raced_pointer_written (db0 dbw : DB) (ds : Nat) (key : Nat × Nat)
 -- the defect the guard repairs (D14), on the model: entity 1 has a legacy duplicate as its newest version; the
 -- compactor's snapshot is taken, a writer stores a new version, the flush lands. Unguarded, the entity's latest
 -- content is the old one again although the writer's version is in the feed; guarded, it is the writer's.
-example : let a : Ent := ⟨1, false, [], "1"⟩; let b : Ent := ⟨1, false, [], "2"⟩
+example : let a : Ent := ⟨1, false, [], "1", []⟩; let b : Ent := ⟨1, false, [], "2", []⟩
     let db0 := injectVersion (storeBatch {} 2 10 [a]) 2 20 a
     let dbw := storeBatch db0 2 30 [b]
     (compactRaced false db0 dbw 2).stored 2 1 = some a ∧ (compactRaced true db0 dbw 2).stored 2 1 = some b
     ∧ (changesPage (compactRaced true db0 dbw 2) 2 0 0 false).1 = [a, b] := by decide
+
+-- D34 on the key-level model: entity 1 deleted (batch 10), then one batch 20 with deleted / live / deleted versions that all
+-- reference 2: the two deleted versions of batch 20 share one reference key; compaction keeps it (the first of them is not the
+-- last version of its batch), so the relation stays removed after compaction, now and at instant 20
+example : let d1 : Ent := ⟨1, true, [(5, 2)], "1", []⟩; let d2 : Ent := ⟨1, true, [(5, 2)], "2", []⟩
+    let l3 : Ent := ⟨1, false, [(5, 2)], "3", []⟩; let d3 : Ent := ⟨1, true, [(5, 2)], "3", []⟩
+    let db := storeBatch (storeBatch {} 2 10 [d1]) 2 20 [d2, l3, d3]
+    (relatedOut db 1 0 99 0 [] none).1 = [] ∧ (relatedOut (compact db 2) 1 0 99 0 [] none).1 = []
+    ∧ (relatedOut (compact db 2) 1 0 20 0 [] none).1 = [] := by decide
 
 /-! ## tie to the Go source (regenerated facts) -/
 open Hub.Facts.Compact in
@@ -346,12 +355,17 @@ theorem facts_shape :
     ∧ dupCond = ["server.IsEntityEqual(d.prevEntityBytes, entityBytes, d.prev, e)"]
     ∧ baseAdvance = ["!isDuplicate"]
     ∧ latestRewrite = ["isLatestVersion"]
-    ∧ refDedupCond = ["e.IsDeleted == d.prev.IsDeleted", "e.IsDeleted == d.prev.IsDeleted", "reflect.DeepEqual(d.prev.References[k], stringOrArrayValue)", "e.IsDeleted == d.prev.IsDeleted", "!identical"]
+    ∧ refDedupCond = ["e.IsDeleted == d.prev.IsDeleted && !laterVersionInSameBatch(jsonKey, txn)", "e.IsDeleted == d.prev.IsDeleted && !laterVersionInSameBatch(jsonKey, txn)", "reflect.DeepEqual(d.prev.References[k], stringOrArrayValue)", "e.IsDeleted == d.prev.IsDeleted && !laterVersionInSameBatch(jsonKey, txn)", "!identical"]
     ∧ flushOrder = ["strategy.flush", "txn.Get", "txn.Delete", "txn.Get", "txn.Set"]
     -- a latest pointer is re-pointed only when it still holds the json key the snapshot showed (the removed version)
     ∧ rewriteLoop = ["txn.Get", "ret-on-err", "item.ValueCopy", "ret-on-err", "bytes.Equal",
         "if !bytes.Equal(current, ops.RewriteExpected[i]) {", "continue", "}", "txn.Set", "ret-on-err"]
     ∧ rewriteExpected = ["append(rewriteExpected, jsonKey)"]
+    -- reference keys are only given up by the last version of a batch: the look-ahead seeks this version's json key under the
+    -- prefix (entity, dataset, txn time) and asks whether another key follows
+    ∧ laterInBatch = ["opts := badger.DefaultIteratorOptions", "opts.PrefetchValues = false", "opts.Prefix = jsonKey[:22]", "it := txn.NewIterator(opts)",
+        "defer it.Close()", "it.Seek(jsonKey)", "if it.ValidForPrefix(opts.Prefix) && bytes.Equal(it.Item().Key(), jsonKey) { it.Next() }",
+        "return it.ValidForPrefix(opts.Prefix)"]
     ∧ flushEveryTime = "bufferedKeys, err := strategy.flush(txn)"
     ∧ resetAfterFlush = ["reset"] := by decide
 
@@ -360,18 +374,18 @@ sets the base; a version equal to the base is removed with all its reference key
 when it was the newest); otherwise, delete state unchanged, the reference keys of a predicate whose value equals the
 base's are compared with the keys *computed from the base itself* and removed unless identical; the base advances
 exactly when the version stays. -/
-theorem facts_eval_skeleton : Hub.Facts.Compact.skeleton_eval = ["if isFirstVersion {", "set d.prevJsonKey = jsonKey", "set d.prevEntityBytes = entityBytes", "set d.prev = e", "return", "}", "set isDuplicate = false", "server.IsEntityEqual", "if server.IsEntityEqual(d.prevEntityBytes, entityBytes, d.prev, e) {", "set isDuplicate = true", "if isLatestVersion {", "mkLatestKey", "}", "findRefs", "ret-on-err", "} else {", "if e.IsDeleted == d.prev.IsDeleted {", "for {", "reflect.DeepEqual", "if reflect.DeepEqual(d.prev.References[k], stringOrArrayValue) {", "processRefs", "ret-on-err", "processRefs", "ret-on-err", "set identical = false", "if len(refsToDel) == len(refsToDelPrev) {", "set identical = true", "for {", "bytes.Equal", "if !bytes.Equal(ref, refsToDelPrev[i]) {", "set identical = false", "break", "}", "}", "}", "}", "}", "}", "}", "if !isDuplicate {", "set d.prevJsonKey = jsonKey", "set d.prevEntityBytes = entityBytes", "set d.prev = e", "}", "if len(del) > 0 {", "return", "}", "return"] := by
+theorem facts_eval_skeleton : Hub.Facts.Compact.skeleton_eval = ["if isFirstVersion {", "set d.prevJsonKey = jsonKey", "set d.prevEntityBytes = entityBytes", "set d.prev = e", "return", "}", "set isDuplicate = false", "server.IsEntityEqual", "if server.IsEntityEqual(d.prevEntityBytes, entityBytes, d.prev, e) {", "set isDuplicate = true", "if isLatestVersion {", "mkLatestKey", "}", "findRefs", "ret-on-err", "} else {", "if e.IsDeleted == d.prev.IsDeleted && !laterVersionInSameBatch(jsonKey, txn) {", "for {", "reflect.DeepEqual", "if reflect.DeepEqual(d.prev.References[k], stringOrArrayValue) {", "processRefs", "ret-on-err", "processRefs", "ret-on-err", "set identical = false", "if len(refsToDel) == len(refsToDelPrev) {", "set identical = true", "for {", "bytes.Equal", "if !bytes.Equal(ref, refsToDelPrev[i]) {", "set identical = false", "break", "}", "}", "}", "}", "}", "}", "}", "if !isDuplicate {", "set d.prevJsonKey = jsonKey", "set d.prevEntityBytes = entityBytes", "set d.prev = e", "}", "if len(del) > 0 {", "return", "}", "return"] := by
   set_option maxRecDepth 8000 in decide
 
 -- a partial compaction of 1,2,2,1,1: only the first duplicate was removed before the kill
-example : let a : Ent := ⟨1, false, [], "1"⟩; let b : Ent := ⟨1, false, [], "2"⟩
+example : let a : Ent := ⟨1, false, [], "1", []⟩; let b : Ent := ⟨1, false, [], "2", []⟩
     Partial [(1, a), (2, b), (3, b), (4, a), (5, a)] [(1, a), (2, b), (4, a), (5, a)] :=
   .step _ _ _ (.there _ _ _ (.here _ _ _ rfl)) (.refl _)
 
 -- non-vacuity: 1,2,2,1,1 keeps 1,2,1; the key-level model agrees on a dataset with a legacy duplicate
-example : let a : Ent := ⟨1, false, [], "1"⟩; let b : Ent := ⟨1, false, [], "2"⟩
+example : let a : Ent := ⟨1, false, [], "1", []⟩; let b : Ent := ⟨1, false, [], "2", []⟩
     dedupAdj [(1, a), (2, b), (3, b), (4, a), (5, a)] = [(1, a), (2, b), (4, a)] := by decide
-example : let a : Ent := ⟨1, false, [(5, 2)], "1"⟩
+example : let a : Ent := ⟨1, false, [(5, 2)], "1", []⟩
     let db := injectVersion (storeBatch {} 2 10 [a]) 2 20 a
     db.versions.length = 2 ∧ (compact db 2).versions.length = 1 ∧ (compact db 2).stored 2 1 = some a
     ∧ (changesPage (compact db 2) 2 0 0 false).1 = [a] ∧ (relatedOut (compact db 2) 1 0 99 0 [] none).1.length = 1 := by decide
